@@ -317,7 +317,7 @@ def run_sync(inp):
     outcome = 0
     start = clock.now
     try:
-        with clock.installed(), iosim.alarm(10.0):
+        with clock.installed(), iosim.alarm(120.0):
             try:
                 if impl == 2:
                     target.send_packet(_typed(chunks), timeout=None if T is None else iosim.secs(T))
@@ -447,7 +447,7 @@ def oracle(inp):
     if impl in (0, 1, 2) and all(a[2] == 0 for a in sscript):
         # "within its time budget": before each wait at most what is left of T is requested (C11's statement, checked
         # here too so that a send path that ignores the remaining timeout yields a failing input)
-        f = iosim.budget_failure(iosim.sx_tmo(T), out[2], [], selscript, None, outcome, "send")
+        f = iosim.budget_failure(iosim.sx_tmo(T), out[2], [], selscript, None, outcome, "send", out[3])
         if f:
             return f
     return None
